@@ -1143,6 +1143,89 @@ def bytearray_assembly(tree):
     return n
 
 
+# ------------------------------------------------------------------------------------------- D16 transposed views of local 2-D arrays
+def transpose_views(tree):
+    """X a local bound once to a syntactically two-dimensional array (`E.reshape([a, b])`, `np.zeros((a, b), ..)`, empty, full):
+       X.T[i, j]  ==>  X[j, i];   and, for a freshly allocated X whose every other use is a two-index subscript,
+       `X = zeros((a, b)); X[i, j] = v; f(X.T)`  ==>  `X = zeros((b, a)); X[j, i] = v; f(X)`  (the same array seen transposed)."""
+    n = 0
+    for fn in [x for x in ast.walk(tree) if isinstance(x, ast.FunctionDef)]:
+        stores = {}
+        for x in ast.walk(fn):
+            if isinstance(x, ast.Name) and isinstance(x.ctx, (ast.Store, ast.Del)):
+                stores[x.id] = stores.get(x.id, 0) + 1
+        two_d = {}
+        for st in ast.walk(fn):
+            if isinstance(st, ast.Assign) and len(st.targets) == 1 and isinstance(st.targets[0], ast.Name) and stores.get(st.targets[0].id) == 1 and isinstance(st.value, ast.Call):
+                c = st.value
+                f = ast.unparse(c.func)
+                shape = None
+                fresh = False
+                if isinstance(c.func, ast.Attribute) and c.func.attr == "reshape":
+                    if len(c.args) == 1 and isinstance(c.args[0], (ast.Tuple, ast.List)) and len(c.args[0].elts) == 2:
+                        shape = c.args[0]
+                    elif len(c.args) == 2:
+                        shape = c.args
+                elif f in ("np.zeros", "np.empty", "np.full", "numpy.zeros", "numpy.empty", "numpy.full") and c.args and isinstance(c.args[0], (ast.Tuple, ast.List)) and len(c.args[0].elts) == 2:
+                    shape, fresh = c.args[0], True
+                if shape is not None:
+                    two_d[st.targets[0].id] = (st, fresh)
+        if not two_d:
+            continue
+
+        class A(ast.NodeTransformer):
+            def visit_Subscript(self, node):
+                self.generic_visit(node)
+                v = node.value
+                if isinstance(v, ast.Attribute) and v.attr == "T" and isinstance(v.value, ast.Name) and v.value.id in two_d and isinstance(node.slice, ast.Tuple) \
+                        and len(node.slice.elts) == 2 and not any(isinstance(e, (ast.Slice, ast.Starred)) for e in node.slice.elts):
+                    nonlocal n
+                    n += 1
+                    node.value = v.value
+                    node.slice = ast.Tuple(elts=[node.slice.elts[1], node.slice.elts[0]], ctx=ast.Load())
+                return node
+
+        A().visit(fn)
+        for name, (st, fresh) in two_d.items():
+            if not fresh:
+                continue
+            parents = {}
+            for p_ in ast.walk(fn):
+                for c_ in ast.iter_child_nodes(p_):
+                    parents[id(c_)] = p_
+            uses = [x for x in ast.walk(fn) if isinstance(x, ast.Name) and x.id == name and isinstance(x.ctx, ast.Load)]
+            t_uses, sub_uses, other = [], [], []
+            for u in uses:
+                par = parents.get(id(u))
+                if isinstance(par, ast.Attribute) and par.attr == "T" and par.value is u:
+                    t_uses.append(par)
+                elif isinstance(par, ast.Subscript) and par.value is u and isinstance(par.slice, ast.Tuple) and len(par.slice.elts) == 2 \
+                        and not any(isinstance(e, (ast.Slice, ast.Starred)) for e in par.slice.elts):
+                    sub_uses.append(par)
+                else:
+                    other.append(u)
+            if not t_uses or other:
+                continue
+            shp = st.value.args[0]
+            shp.elts = [shp.elts[1], shp.elts[0]]
+            for sub in sub_uses:
+                sub.slice = ast.Tuple(elts=[sub.slice.elts[1], sub.slice.elts[0]], ctx=ast.Load())
+            ids = {id(t) for t in t_uses}
+
+            class B(ast.NodeTransformer):
+                def visit_Attribute(self, node):
+                    self.generic_visit(node)
+                    if id(node) in ids:
+                        return node.value
+                    return node
+
+            B().visit(fn)
+            n += 1
+    if n:
+        ast.fix_missing_locations(tree)
+    return n
+
+
 # ------------------------------------------------------------------------------------------- D9 NamedTuple carriers
 def namedtuples(tree):
     out = {}
